@@ -5,7 +5,7 @@ From C33 Require Import C32Spec C32Model C32Proofs C33Model C33General C33_gen C
 Import ListNotations.
 
 (* the mangled name encodes the code point: prefix + four upper-case hexadecimal digits of the UTF-8 decoding *)
-Theorem C33_mangled_name_is_code_point : forall e, In e table ->
+Theorem C33_mangled_name_is_code_point : forall e : bytes * bytes, In e table ->
   exists cp, decode_utf8 (fst e) = Some cp /\ (128 <= cp < 65536)%N /\ snd e = prefix ++ hex4 cp.
 Proof. exact faithful. Qed.
 Print Assumptions C33_mangled_name_is_code_point.
@@ -18,13 +18,13 @@ Theorem C33_table_distinct_prefix_free :
 Proof. destruct table_parts as [_ [_ [A [B [C D]]]]]. exact (conj A (conj B (conj C D))). Qed.
 Print Assumptions C33_table_distinct_prefix_free.
 
-Theorem C33_names_ascii_head_unique : forall e, In e table ->
+Theorem C33_names_ascii_head_unique : forall e : bytes * bytes, In e table ->
   head_unique ascii (snd e) /\ Forall (fun a => is_ascii a = true) (snd e) /\ Forall (fun a => is_ascii a = false) (fst e).
 Proof. exact head_unique_entry. Qed.
 Print Assumptions C33_names_ascii_head_unique.
 
 (* every supported character is mangled to its name by the whole sequence of replacements and comes back *)
-Theorem C33_roundtrip_each_character : forall e, In e table ->
+Theorem C33_roundtrip_each_character : forall e : bytes * bytes, In e table ->
   mangle table (fst e) = snd e /\ demangle table (snd e) = fst e.
 Proof. exact roundtrip_char. Qed.
 Print Assumptions C33_roundtrip_each_character.
